@@ -158,6 +158,41 @@ def certifiedSem (prog : List CStmt) : Bool :=
   c.ok && WFStmts c prog && (exprsOfList prog).all (WFES c) &&
   CarveProgSem prog && HybFreeSs prog && HSameProg Cfg.asCode prog
 
+/-! ### bare immediate statements in front of an assignment to the same immediate
+
+  Every direct jump / call starts with `riV; riV = riV & ~3;` (the expansion of `fIMMEXT(riV); riV = riV & ~PCALIGN_MASK`).
+  The bare statement `riV;` has no effect in C and none in the lowering: it only registers the immediate, which the
+  visit of the assignment target would do at the same moment (`regLhsH`).  `dropBare` removes such statements; the
+  certificate of a behaviour is the certificate of what is left (`Props/T2Sem.lean: certifiedSemB_correct` proves that
+  the lowering of both programs is the same effect and that the C semantics are the same). -/
+
+/-- `s` is a bare read of an immediate and `next` assigns to that immediate -/
+def bareBefore (s next : CStmt) : Bool :=
+  match s, next with
+  | .exprstmt (.imm l sg), .assign (.imm l' sg') _ _ => l == l' && sg == sg'
+  | _, _ => false
+
+/-- `s` is a bare read of an immediate and the first statement of `rest` assigns to that immediate -/
+def bareHead (s : CStmt) (rest : List CStmt) : Bool :=
+  match rest with
+  | n :: _ => bareBefore s n
+  | [] => false
+
+mutual
+def dropBareS : CStmt → CStmt
+  | .ite c t e => .ite c (dropBare t) (match e with | some e => some (dropBare e) | none => none)
+  | .for_ v c k b => .for_ v c k (dropBare b)
+  | s => s
+def dropBare : List CStmt → List CStmt
+  | [] => []
+  | s :: rest =>
+      if bareHead s rest then dropBare rest
+      else dropBareS s :: dropBare rest
+end
+
+/-- the semantic certificate modulo bare immediate statements in front of an assignment to the same immediate -/
+def certifiedSemB (prog : List CStmt) : Bool := certifiedSem (dropBare prog)
+
 /-- which conjuncts of `certifiedSem` hold (diagnostics for the evidence): ctx ok, WFStmts, WFES, CarveProgSem, HybFreeSs, HSameProg -/
 def certifiedSemDetail (prog : List CStmt) : String :=
   let c := ctxOf prog
